@@ -10,7 +10,7 @@
      Q <id> mpswrite + MLP block           -> A <id> <enc line>*       (IO/MpsWrite.write_mps)
      Q <id> lpread <0|1> <enc text> + (NONE | SLP block of the library's result) -> A <id> <OK|ERR|FLT|FUEL> <agree> <ncols> <nrows>
      Q <id> mpsread <0|1> <enc text> + (NONE | SLP block of the library's result) -> A <id> <OK|ERR:<reason>|FLT|FUEL> <agree> <ncols> <nrows>   (IO/MpsRead.read_mps_res)
-     Q <id> mpsrt + MLP block              -> A <id> <wf_mpsb 0|1> <outcome of read_mps_res (write_mps P)> <equiv_by_name P P'>
+     Q <id> mpsrt [0|1] + MLP block        -> A <id> <wf_coreb> <setnames_okb> <outcome of read_mps_res (write_mps[_fixed] P)> <equiv_by_name P P'>
 *)
 open Model
 open Glue
@@ -216,9 +216,10 @@ let () =
              | PrOk p' -> ("OK", equiv_by_name (to_nlp p) (to_nlp p'))
              | PrErr -> ("ERR", false) | PrFlt -> ("FLT", false) | PrFuel -> ("FUEL", false)) in
            Printf.printf "A %s %s %s %s\n" id (if wf then "1" else "0") tag (string_of_bool eqv)
-         | "mpswrite", [] ->
+         | "mpswrite", vs ->
+           (* variant 1: the writer with notes/repo_patches/mps_setname_clash.diff (set names made unique) *)
            let p = (match next_tokens ic with Some h -> read_mlp_hdr ic h | None -> failwith "MLP expected") in
-           let ls = write_mps !sentinel p in
+           let ls = if vs = [ "1" ] then write_mps_fixed !sentinel p else write_mps !sentinel p in
            Printf.printf "A %s %s\n" id (String.concat " " (List.map (fun l -> enc (string_of_chars l)) ls))
          | "lpread", [ v; t ] ->
            (* model reader on the text; then NONE (the library rejected the file) or the SLP block of what the library delivered.
@@ -254,11 +255,11 @@ let () =
              | _, None -> (true, 0, 0)
              | _, Some _ -> (false, 0, 0)) in
            Printf.printf "A %s %s %s %d %d\n" id tag (string_of_bool agree) nc nr
-         | "mpsrt", [] ->
+         | "mpsrt", vs ->
            (* the statement of C09_mps_roundtrip evaluated on one problem: <wf_coreb> <setnames_okb> <outcome of read_mps_res (write_mps P)> <equiv_by_name P P'> *)
            let p = (match next_tokens ic with Some h -> read_mlp_hdr ic h | None -> failwith "MLP expected") in
            let wc = wf_coreb !sentinel p and sn = setnames_okb !sentinel p in
-           let r = read_mps_res true !sentinel (write_mps !sentinel p) in
+           let r = read_mps_res true !sentinel (if vs = [ "1" ] then write_mps_fixed !sentinel p else write_mps !sentinel p) in
            let tag, eqv = (match r with
              | MOk p' -> ("OK", equiv_by_name (mlp_to_nlp p) (mlp_to_nlp p'))
              | MErr e -> ("ERR:" ^ reason_name e, false) | MFlt -> ("FLT", false) | MFuel -> ("FUEL", false)) in
